@@ -54,13 +54,16 @@ var c03Templates = []struct {
 var (
 	c03Cases   []c03Case
 	c03Mut     mon.MutStats
-	c03Applic  map[string][]int // lint -> seed indices on which it is applicable (status != NA)
+	c03Applic  map[string][]int                   // lint -> seed indices on which it is applicable (status != NA)
+	c03ByStat  map[string]map[lint.LintStatus]int // lint -> status -> first seed index showing it
 	c03Offsets = []int{60, -480, 330, 840, -720, 1}
 )
 
 func c03Build(c *mon.Ctx) {
 	g := lint.GlobalRegistry()
 	c03Applic = map[string][]int{}
+	c03ByStat = map[string]map[lint.LintStatus]int{}
+	c03Cases = nil
 	for idx, o := range W.Objs {
 		rs, pv, _ := o.Lint(g)
 		if pv != nil || rs == nil {
@@ -69,6 +72,12 @@ func c03Build(c *mon.Ctx) {
 		for n, r := range rs.Results {
 			if r.Status != lint.NA && r.Status != lint.Fatal {
 				c03Applic[n] = append(c03Applic[n], idx)
+				if c03ByStat[n] == nil {
+					c03ByStat[n] = map[lint.LintStatus]int{}
+				}
+				if _, ok := c03ByStat[n][r.Status]; !ok {
+					c03ByStat[n][r.Status] = idx
+				}
 			}
 		}
 		c.Tick()
@@ -107,7 +116,13 @@ func c03Build(c *mon.Ctx) {
 			rot = int(uint64(c.Seed) % uint64(len(bases)))
 		}
 		var chosen []int
-		for k := 0; k < perLint && k < len(bases); k++ {
+		// first one base per distinct verdict the lint shows on the seeds (findings first), then spread over the list
+		for _, st := range []lint.LintStatus{lint.Error, lint.Warn, lint.Notice, lint.Pass} {
+			if idx, ok := c03ByStat[info.Name][st]; ok && len(chosen) < perLint+2 {
+				chosen = append(chosen, idx)
+			}
+		}
+		for k := 0; len(chosen) < perLint && k < len(bases); k++ {
 			chosen = append(chosen, bases[(rot+k*len(bases)/min(perLint, len(bases)))%len(bases)])
 		}
 		type inst struct {
@@ -137,6 +152,24 @@ func c03Build(c *mon.Ctx) {
 			}
 		}
 	}
+}
+
+// c03Object materialises one boundary case (nil when the re-dating is infeasible).
+func c03Object(cs c03Case) (o *mon.Obj, base *mon.Obj) {
+	if cs.tmpl > 0 {
+		tp := c03Templates[cs.tmpl-1]
+		var nb *der.Node
+		if cs.off != 0 {
+			nb = der.TimeOffset(cs.instant, cs.off)
+		}
+		func() {
+			defer func() { _ = recover() }() // a template that cannot be built at this instant is infeasible
+			o, _ = mon.ParseObj(corpus.Cert, tp.name, tp.mk(cs.instant, nb))
+		}()
+		return o, &mon.Obj{Name: tp.name}
+	}
+	base = W.Objs[cs.base]
+	return redateX(base, cs.instant, cs.off, cs.keep), base
 }
 
 // c03JudgeAll applies the window oracle to every result of one run.
@@ -199,22 +232,7 @@ func init() {
 			if i < len(c03Cases) {
 				cs := c03Cases[i]
 				info := Inv[cs.lint]
-				base := W.Objs[cs.base]
-				var o *mon.Obj
-				if cs.tmpl > 0 {
-					tp := c03Templates[cs.tmpl-1]
-					var nb *der.Node
-					if cs.off != 0 {
-						nb = der.TimeOffset(cs.instant, cs.off)
-					}
-					func() {
-						defer func() { _ = recover() }() // a template that cannot be built at this instant is infeasible
-						o, _ = mon.ParseObj(corpus.Cert, tp.name, tp.mk(cs.instant, nb))
-					}()
-					base = &mon.Obj{Name: tp.name}
-				} else {
-					o = redateX(base, cs.instant, cs.off, cs.keep)
-				}
+				o, base := c03Object(cs)
 				c.R.Count("boundary_cases", 1)
 				if o == nil {
 					c.R.Count("boundary_infeasible", 1)
